@@ -32,13 +32,14 @@ def instances(tier):
     for L in ([2, 3, 6, 12, 40] if tier == 'quick' else [2, 3, 6, 12, 40, 70, 132]):
         for rs in (1, 2):
             out.append((B, 'VH_C07_cell', [L, rs], {'weight': L}))
+    out.append((B, 'VH_C07_tostring_budget', [9 if tier == 'quick' else 40], {'weight': 5}))
     return out
 
 
 CHECK = dict(
     id='C07', pkgs=['boc'], init_pkgs=['std:io', 'boc'], instances=instances,
     opts={'budget_s': 2400, 'unwind': 400}, witness_runs={'quick': 40, 'thorough': 200},
-    level_text='DeserializeBoc / parseBocHeader / deserializeCellData are executed symbolically on EVERY byte string up to the length bound (all bytes symbolic; the instance family splits on magic prefix, size field and offset-size byte and is a partition). Every Go run-time check is a VC, every make() has an allocation VC (elements <= input length + 8), loops must terminate within the unwinding bound, and on success the returned roots must be finite well-formed trees.',
+    level_text='DeserializeBoc / parseBocHeader / deserializeCellData are executed symbolically on EVERY byte string up to the length bound (all bytes symbolic; the instance family splits on magic prefix, size field and offset-size byte and is a partition). Every Go run-time check is a VC, every make() has an allocation VC (elements <= input length + 8), loops must terminate within the unwinding bound, and on success the returned roots must be finite well-formed trees.  Printing: one inductive step of the expansion budget of Cell.ToString (toStringImpl on a shared DAG with a SYMBOLIC starting budget): the budget never becomes negative, each expanded cell costs one unit and the printed lines are bounded by the budget spent - so ToString expands at most BOCSizeLimit cells whatever the sharing.',
     level_note='Bound: input length (quick: full parser <= 16 bytes, header <= 20 bytes; thorough 18 / 26). CRC32C is an uninterpreted function (consistent, arbitrary). Longer inputs are outside the claim.',
     bounds={'quick': {'DeserializeBoc input bytes': '0..16', 'parseBocHeader input bytes': '17..20', 'single cell record bytes': [2, 3, 6, 12, 40]},
             'thorough': {'DeserializeBoc input bytes': '0..18', 'parseBocHeader input bytes': '19..26', 'single cell record bytes': [2, 3, 6, 12, 40, 70, 132]}},
